@@ -85,6 +85,7 @@ type pipe struct {
 	failStop bool
 	seenLog [][]*progress.Seen
 	expectTooBig int
+	expectSunk int
 	pcClosed bool
 	inClosed bool
 	tickPanicked bool
@@ -690,6 +691,9 @@ func pipelineRun(c Case) ([]string, []string) {
 			m := &replication.WalMessage{WalStart: lsn, Pr: pr, TimeBasedKey: kname(key)}
 			pr.Transaction = tname(txn)
 			p.ev(fmt.Sprintf("pipemon fed %d %d %d %d %s %d", kindN, id, key, lsn, map[bool]string{true: "1", false: "0"}[passes], p.pkeyId(p.pkeyOf(rel, tname(txn)))))
+			if kindN == 2 && passes {
+				p.expectSunk++ // accepted by the sink or dropped-and-counted
+			}
 			if kindN == 2 && passes && strings.HasPrefix(p.kind, "kinesis") && size > 1<<20 {
 				// the property's exception: dropped (and counted) as larger than the record limit
 				p.ev(fmt.Sprintf("pipemon dropped %d", id))
@@ -819,7 +823,43 @@ func pipelineRun(c Case) ([]string, []string) {
 			outs = append(outs, fmt.Sprintf("cancelled=%v batcherdead=%v", cancelled, p.bdead))
 		case "settle":
 			// everything the environment owes: sinks accept, time passes, ticks and emits happen
-			for round := 0; round < 40; round++ {
+			// The loop ends when the environment has nothing left to do: every filtered-in record is
+			// accounted for at the sink, the ledger has emitted the last COMMIT and is empty. Waiting
+			// longer can never create an alarm, so the only other exit is a generous round cap (a
+			// genuinely stuck pipeline, e.g. finding F1, runs into it).
+			done := func() bool {
+				p.mu.Lock()
+				defer p.mu.Unlock()
+				sunk := 0
+				lastAck, maxCommit := uint64(0), uint64(0)
+				for _, e := range p.evs {
+					f := strings.Fields(e)
+					switch f[1] {
+					case "sunk", "dropped":
+						sunk++
+					case "ack":
+						v, _ := strconv.ParseUint(f[2], 10, 64)
+						if v > lastAck {
+							lastAck = v
+						}
+					case "fed":
+						if f[2] == "1" {
+							v, _ := strconv.ParseUint(f[5], 10, 64)
+							if v > maxCommit {
+								maxCommit = v
+							}
+						}
+					}
+				}
+				for _, c := range p.pending {
+					if c != nil {
+						return false
+					}
+				}
+				return sunk >= p.expectSunk && lastAck >= maxCommit
+			}
+			idle := 0
+			for round := 0; round < 160; round++ {
 				progress := false
 				for wk := 0; wk < p.workers; wk++ {
 					for i := 0; i < 200; i++ {
@@ -835,6 +875,9 @@ func pipelineRun(c Case) ([]string, []string) {
 					}
 				}
 				time.Sleep(3 * time.Millisecond)
+				if p.bdead || p.failStop {
+					break
+				}
 				if p.parked || p.inSelect {
 					p.tick()
 				}
@@ -846,16 +889,13 @@ func pipelineRun(c Case) ([]string, []string) {
 					time.Sleep(6 * time.Millisecond)
 					p.readAcks()
 				}
-				any := false
-				p.mu.Lock()
-				for _, c := range p.pending {
-					if c != nil {
-						any = true
+				if done() && !progress {
+					idle++
+					if idle >= 2 {
+						break
 					}
-				}
-				p.mu.Unlock()
-				if !progress && !any && round >= 2 {
-					break
+				} else {
+					idle = 0
 				}
 			}
 			items, _ := p.tracker.VerifLedgerSnapshot()
